@@ -9,6 +9,8 @@
 (*   A      n x n, zero diagonal, A[i][j] quarters of variable j in the equation of i    *)
 (*   lag    0 none | 1:  + 0.5*LAG_<last>  in equation 1, LAG_<last> = <last>(k-1)       *)
 (*                 | 2:  + LAG_<last>      in equation 1, LAG_<last> = <last>(t-1)       *)
+(*                 | 3:  + 0.5*LAG2_<last> in equation 1, LAG_<last> = <last>(k-1),      *)
+(*                       LAG2_<last> = LAG_<last>(k-1)   (a lag of a lagged variable)    *)
 (*   ic     <last>(0) = 10.0                                                             *)
 (*   exo    0 none | 1:  + G  in equation 1, G a literal list of exactly MaxTime+1       *)
 (*                 | 2:  + G, G a list expression of MaxTime+3 values (gets chopped)     *)
@@ -18,40 +20,55 @@
 (*          "exo" : t = [0.0, 1.0, ...] in the exogenous section                         *)
 (*   useT   + 0.25*t in the last equation                                                *)
 (*   tol    0: no Err_Tolerance line (parser default 1e-8) | 4: Err_Tolerance = 1e-4     *)
+(*   nm     names of the variables: 0: x, y, z and the parameter c0 = 2.0                *)
+(*          1: err, new_vector, in_vec and the parameter cnt = 500.0 - locals of the     *)
+(*             generated RunOneStep / Iterator (err and cnt are the loop state; err is   *)
+(*             0 at k = 0 unless it is the last variable with an initial condition, cnt  *)
+(*             is above MaxIterations = 400)                                             *)
+(*          2: STEP, main, orig_vector and the parameter MaxIterations = 2.0 -           *)
+(*             attributes / methods / the unpack local of the generated class            *)
 (* The replay driver renders the text from these fields (harness/checks/c20.py).         *)
 EXTENDS Codegen, Json
 
 CONSTANT Tier      \* "quick" | "thorough" | "tiny": which block set MC_Blocks is (one definition, so
                    \* that TLC does not build the large sets of the other tiers at start-up)
 
-VarNames == << "x", "y", "z" >>
+NameSets == << << "x", "y", "z", "c0" >>,
+               << "err", "new_vector", "in_vec", "cnt" >>,
+               << "STEP", "main", "orig_vector", "MaxIterations" >> >>
+VarName(o, i) == NameSets[o.nm + 1][i]
+ParamName(o) == NameSets[o.nm + 1][4]
 MC_MathNames == {"sqrt", "exp", "log", "floor", "pi"}
 
 Opt(c, s) == IF c THEN s ELSE << >>
 
 (* names read by equation i: the other simultaneous variables with a non-zero coefficient ... *)
-OffDiag(A, i) ==
-    LET n   == Len(A)
+OffDiag(o, i) ==
+    LET A   == o.A
+        n   == Len(A)
         idx == SelectSeq([ j \in 1..n |-> j ], LAMBDA j : j # i /\ A[i][j] # 0)
-    IN [ q \in 1..Len(idx) |-> VarNames[idx[q]] ]
+    IN [ q \in 1..Len(idx) |-> VarName(o, idx[q]) ]
 
-Last(o) == VarNames[o.n]
+Last(o) == VarName(o, o.n)
 LagName(o) == "LAG_" \o Last(o)
+Lag2Name(o) == "LAG2_" \o Last(o)
 
 EqReads(o, i) ==
-    OffDiag(o.A, i)
-    \o Opt(i = 1 /\ o.lag > 0, << LagName(o) >>)
+    OffDiag(o, i)
+    \o Opt(i = 1 /\ o.lag \in {1, 2}, << LagName(o) >>)
+    \o Opt(i = 1 /\ o.lag = 3, << Lag2Name(o) >>)
     \o Opt(i = 1 /\ o.exo > 0, << "G" >>)
     \o Opt(i = 1 /\ o.cst = 1, << "sqrt" >>)
-    \o Opt(i = 1 /\ o.cst = 2, << "c0" >>)
+    \o Opt(i = 1 /\ o.cst = 2, << ParamName(o) >>)
     \o Opt(i = o.n /\ o.useT, << "t" >>)
 
 MkBlock(o) ==
     o @@
-    [ endo   |-> [ i \in 1..o.n |-> [name |-> VarNames[i], reads |-> EqReads(o, i)] ]
-                 \o Opt(o.cst = 2, << [name |-> "c0", reads |-> << >>] >>)
+    [ endo   |-> [ i \in 1..o.n |-> [name |-> VarName(o, i), reads |-> EqReads(o, i)] ]
+                 \o Opt(o.cst = 2, << [name |-> ParamName(o), reads |-> << >>] >>)
                  \o Opt(o.userT = "endo", << [name |-> "t", reads |-> << "t_minus_1" >>] >>),
       lagged |-> Opt(o.lag > 0, << [name |-> LagName(o), of |-> Last(o)] >>)
+                 \o Opt(o.lag = 3, << [name |-> Lag2Name(o), of |-> LagName(o)] >>)
                  \o Opt(o.userT = "endo", << [name |-> "t_minus_1", of |-> "t"] >>),
       exos   |-> Opt(o.exo > 0, << [name |-> "G", len |-> IF o.exo = 1 THEN o.maxTime + 1 ELSE o.maxTime + 3] >>)
                  \o Opt(o.userT = "exo", << [name |-> "t", len |-> o.maxTime + 1] >>),
@@ -82,38 +99,62 @@ Mats3Mid == { << << 0, 1, 1 >>, << r2[1], 0, r2[2] >>, << r3[1], r3[2], 0 >> >> 
 BaseMats == { << << 0, 1 >>, << 2, 0 >> >>,
               << << 0, 1, 1 >>, << 1, 0, 1 >>, << 1, 1, 0 >> >> }
 
-OptsOver(M, MT, Tols) ==
+OptsOverN(M, MT, Tols, Lags, Nms) ==
     { [n |-> Len(A), A |-> A, lag |-> l, ic |-> c, exo |-> e, cst |-> s, userT |-> u, useT |-> w,
-       tol |-> tl, maxTime |-> mt] :
-      A \in M, l \in 0..2, c \in BOOLEAN, e \in 0..2, s \in 0..2, u \in {"none", "endo", "exo"},
-      w \in BOOLEAN, tl \in Tols, mt \in MT }
+       tol |-> tl, maxTime |-> mt, nm |-> nm] :
+      A \in M, l \in Lags, c \in BOOLEAN, e \in 0..2, s \in 0..2, u \in {"none", "endo", "exo"},
+      w \in BOOLEAN, tl \in Tols, mt \in MT, nm \in Nms }
+OptsOver(M, MT, Tols) == OptsOverN(M, MT, Tols, 0..2, {0})
 
-(* four option profiles under which every matrix is tried *)
+(* option profiles under which every matrix is tried *)
 Profiles ==
-    { [lag |-> 1, ic |-> TRUE,  exo |-> 2, cst |-> 1, userT |-> "endo", useT |-> TRUE,  tol |-> 0],
-      [lag |-> 2, ic |-> FALSE, exo |-> 1, cst |-> 2, userT |-> "none", useT |-> TRUE,  tol |-> 4],
-      [lag |-> 0, ic |-> TRUE,  exo |-> 0, cst |-> 0, userT |-> "exo",  useT |-> FALSE, tol |-> 0],
-      [lag |-> 2, ic |-> TRUE,  exo |-> 2, cst |-> 2, userT |-> "none", useT |-> FALSE, tol |-> 0] }
-ProfilesOver(M, MT) ==
-    { [n |-> Len(A), A |-> A, maxTime |-> mt] @@ pr : A \in M, pr \in Profiles, mt \in MT }
+    { [lag |-> 1, ic |-> TRUE,  exo |-> 2, cst |-> 1, userT |-> "endo", useT |-> TRUE,  tol |-> 0, nm |-> 0],
+      [lag |-> 2, ic |-> FALSE, exo |-> 1, cst |-> 2, userT |-> "none", useT |-> TRUE,  tol |-> 4, nm |-> 0],
+      [lag |-> 0, ic |-> TRUE,  exo |-> 0, cst |-> 0, userT |-> "exo",  useT |-> FALSE, tol |-> 0, nm |-> 0],
+      [lag |-> 2, ic |-> TRUE,  exo |-> 2, cst |-> 2, userT |-> "none", useT |-> FALSE, tol |-> 0, nm |-> 0],
+      [lag |-> 3, ic |-> TRUE,  exo |-> 1, cst |-> 2, userT |-> "none", useT |-> TRUE,  tol |-> 0, nm |-> 0],
+      [lag |-> 3, ic |-> FALSE, exo |-> 0, cst |-> 0, userT |-> "endo", useT |-> FALSE, tol |-> 4, nm |-> 1],
+      [lag |-> 1, ic |-> FALSE, exo |-> 2, cst |-> 2, userT |-> "none", useT |-> TRUE,  tol |-> 0, nm |-> 1],
+      [lag |-> 0, ic |-> TRUE,  exo |-> 1, cst |-> 2, userT |-> "exo",  useT |-> FALSE, tol |-> 0, nm |-> 1] }
+(* blocks whose variables capture names of the generated class: the generator must refuse them *)
+OwnNameProfiles ==
+    { [lag |-> 1, ic |-> TRUE,  exo |-> 1, cst |-> 2, userT |-> "none", useT |-> TRUE,  tol |-> 0, nm |-> 2],
+      [lag |-> 0, ic |-> FALSE, exo |-> 0, cst |-> 0, userT |-> "endo", useT |-> FALSE, tol |-> 0, nm |-> 2] }
+ProfilesOf(P, M, MT) ==
+    { [n |-> Len(A), A |-> A, maxTime |-> mt] @@ pr : A \in M, pr \in P, mt \in MT }
+ProfilesOver(M, MT) == ProfilesOf(Profiles, M, MT)
+Base2 == { << << 0, 1 >>, << 2, 0 >> >> }
+OwnNameMats == Mats1 \cup Base2 \cup { << << 0, 1, 1 >>, << 1, 0, 1 >>, << 1, 1, 0 >> >> }
 
-(* quick: every option combination on two base matrices and on the one-variable block with the *)
-(* default tolerance; every 1x1 / 2x2 / designed 3x3 matrix under the four profiles            *)
+(* quick: every option combination (lags 0-2, names x y z) on the 2x2 base matrix, and with the     *)
+(* default tolerance on the 3x3 base matrix; on the one-variable block every combination incl. the  *)
+(* chained lag, and the colliding local names without a lag / with the chained lag; the chained lag *)
+(* and the colliding local names with every other option on the 2x2 base matrix; every 1x1 / 2x2 /  *)
+(* designed 3x3 matrix under the profiles; the own-name blocks                                      *)
 BlocksQuick(mt) ==
-    { MkBlock(o) : o \in OptsOver(BaseMats, {mt}, {0, 4}) }
-    \cup { MkBlock(o) : o \in OptsOver(Mats1, {mt}, {0}) }
+    { MkBlock(o) : o \in OptsOver(Base2, {mt}, {0, 4}) }
+    \cup { MkBlock(o) : o \in OptsOver(BaseMats \ Base2, {mt}, {0}) }
+    \cup { MkBlock(o) : o \in OptsOverN(Mats1, {mt}, {0}, 0..3, {0}) }
+    \cup { MkBlock(o) : o \in OptsOverN(Mats1, {mt}, {0}, {0, 3}, {1}) }
+    \cup { MkBlock(o) : o \in OptsOverN(Base2, {mt}, {0}, {3}, {0}) }
+    \cup { MkBlock(o) : o \in OptsOverN(Base2, {mt}, {0}, {1}, {1}) }
     \cup { MkBlock(o) : o \in ProfilesOver(Mats1 \cup Mats2 \cup Mats3Few, {mt}) }
+    \cup { MkBlock(o) : o \in ProfilesOf(OwnNameProfiles, OwnNameMats, {mt}) }
 
-(* thorough: every option combination on every 1x1 / 2x2 / designed 3x3 matrix; the mid-sized *)
-(* 3x3 family under the profiles; a longer horizon on the base matrices                       *)
+(* thorough: every option combination (lags 0-3) on every 1x1 / 2x2 / designed 3x3 matrix; the      *)
+(* colliding names with every option on the 1x1 and base matrices; the mid-sized 3x3 family under   *)
+(* the profiles; a longer and a one-period horizon on the base matrices; the own-name blocks        *)
 BlocksThorough(mt) ==
-    { MkBlock(o) : o \in OptsOver(Mats1 \cup Mats2 \cup Mats3Few, {mt}, {0, 4}) }
-    \cup { MkBlock(o) : o \in OptsOver(BaseMats, {1, 6}, {0, 4}) }
+    { MkBlock(o) : o \in OptsOverN(Mats1 \cup Mats2 \cup Mats3Few, {mt}, {0, 4}, 0..3, {0}) }
+    \cup { MkBlock(o) : o \in OptsOverN(Mats1 \cup BaseMats, {mt}, {0, 4}, 0..3, {1}) }
+    \cup { MkBlock(o) : o \in OptsOverN(BaseMats, {1, 6}, {0, 4}, 0..3, {0}) }
     \cup { MkBlock(o) : o \in ProfilesOver(Mats3Mid, {4}) }
+    \cup { MkBlock(o) : o \in ProfilesOf(OwnNameProfiles, OwnNameMats, {mt, 1}) }
 
-(* a handful of blocks for the as-found counterexample *)
+(* a handful of blocks for the as-found counterexamples *)
 BlocksTiny(mt) ==
     { MkBlock(o) : o \in ProfilesOver(BaseMats, {mt}) }
+    \cup { MkBlock(o) : o \in ProfilesOf(OwnNameProfiles, Base2, {mt}) }
 
 MC_Blocks == CASE Tier = "quick"    -> BlocksQuick(3)
                [] Tier = "thorough" -> BlocksThorough(3)
@@ -122,6 +163,7 @@ MC_Blocks == CASE Tier = "quick"    -> BlocksQuick(3)
 ----------------------------------------------------------------------------
 (* every maximal behaviour (= one block carried MaxGenerations times through generation, import and *)
 (* run on one generator object) is printed once                                                    *)
-Terminal == phase = "done" /\ ngen = MaxGenerations
-Emit == Terminal => PrintT(<< "BEH", ToJson([block |-> blk, steps |-> mod.STEP, status |-> mod.status, generations |-> ngen]) >>)
+Terminal == (phase = "done" /\ ngen = MaxGenerations) \/ phase = "rejected"
+Emit == Terminal => PrintT(<< "BEH", ToJson([block |-> blk, steps |-> mod.STEP, status |-> mod.status, generations |-> ngen,
+                                             rejected |-> phase = "rejected"]) >>)
 =============================================================================
